@@ -78,15 +78,17 @@ func genUnit(r *hx.Rand, i int) interface{} {
 		vals = append(append([]string{}, forgedValues...), "ü", "proto=ü;", " 7.7.7.7", "7.7.7.7 ")
 	}
 	in.Wire = genWire(r, in.Cfg, vals, nil)
-	if r.Chance(2, 5) { // websocket (or near-websocket) upgrade
-		v := r.Pick(upgradeValues)
-		if r.Chance(1, 8) {
-			v = r.Pick([]string{"h2c", "websocket, foo", "", "websockets"})
+	if r.Chance(2, 5) { // websocket (or near-websocket) upgrade, lists, repeated lines
+		up := genUpgrade(r)
+		if r.Chance(1, 16) {
+			up[0].V = sp(r.Pick([]string{"", " websocket", "websocket "}))
 		}
-		in.Wire = append(in.Wire, wireHdr{caseVariant(r, "Upgrade"), sp(v)})
-		if r.Chance(1, 3) { // shuffle its position
-			j := r.Intn(len(in.Wire))
-			in.Wire[j], in.Wire[len(in.Wire)-1] = in.Wire[len(in.Wire)-1], in.Wire[j]
+		for _, u := range up {
+			in.Wire = append(in.Wire, u)
+			if r.Chance(1, 3) { // shuffle its position
+				j := r.Intn(len(in.Wire))
+				in.Wire[j], in.Wire[len(in.Wire)-1] = in.Wire[len(in.Wire)-1], in.Wire[j]
+			}
 		}
 	}
 	if r.Chance(1, 25) {
